@@ -41,7 +41,9 @@ def _same_angle(u, v):
         return False
     if isinstance(u, float):
         return float(u) == float(v)
-    return vars(u) == vars(v)
+    # the public fields of the angle classes (private attributes, caches or __slots__ are the implementation's business)
+    fields = [f for f in ("dec_angle", "hp_angle", "gon_angle", "degree", "minute", "second", "positive") if hasattr(u, f) or hasattr(v, f)]
+    return all(getattr(u, f, None) == getattr(v, f, None) for f in fields)
 
 
 def _deg(x):
@@ -90,7 +92,8 @@ def _call(method, form, ellname, prj, ell, proj=None, T=None, arg=None):
 
 
 def _same_projection(p, q):
-    return type(p) is type(q) and vars(p) == vars(q)
+    fields = ("falseeast", "falsenorth", "cmscale", "zonewidth", "initialcm")
+    return type(p) is type(q) and all(getattr(p, f, None) == getattr(q, f, None) for f in fields)
 
 
 def _step(o, step, ellname, prj, form="positional"):
